@@ -32,6 +32,8 @@ fn main() {
     let mut nondet: HashMap<i64, VecDeque<(u32, u64)>> = HashMap::new();
     let mut schedule = Vec::new();
     let mut trace = false;
+    let mut adversary: Option<String> = None;
+    let mut budget = 0usize;
     let mut pres: HashMap<usize, String> = HashMap::new();
     for line in text.lines() {
         let w: Vec<&str> = line.split_whitespace().collect();
@@ -49,6 +51,8 @@ fn main() {
                 .push_back((w[2].parse().unwrap(), w[3].parse().unwrap())),
             "schedule" => schedule.extend(w[1..].iter().map(|x| x.parse::<i64>().unwrap())),
             "trace" => trace = true,
+            "adversary" => adversary = Some(w[1].to_string()),
+            "budget" => budget = w[1].parse().unwrap(),
             "pre" => {
                 pres.insert(w[1].parse().unwrap(), w[2].to_string());
             }
@@ -85,6 +89,29 @@ fn main() {
     };
 
     let mut ok = true;
+    if mode == "adversary" {
+        // setup, prologue of the reader on its own thread, then the reader body with a full write by a helper
+        // thread before every one of its atomic steps
+        if let Some(s) = setup.clone() {
+            lookup(&s)();
+        }
+        let adv = lookup(adversary.as_ref().expect("adversary <fn> missing"));
+        let body = lookup(&entries[0]);
+        let pre = pres.get(&1).map(|p| lookup(p));
+        let h = std::thread::spawn(move || {
+            if let Some(p) = pre {
+                p();
+            }
+            native::install_adversary(adv, budget);
+            native::set_my_id(1);
+            let r = std::panic::catch_unwind(|| body());
+            native::set_my_id(-1);
+            r.is_ok()
+        });
+        let ok = h.join().unwrap_or(false);
+        println!("DONE ok={} assert_failed={} steps={}", ok, native::failed(), native::STEPS.load(std::sync::atomic::Ordering::SeqCst));
+        std::process::exit(if ok && !native::failed() { 0 } else { 1 });
+    }
     if mode == "seq" {
         if let Some(s) = setup {
             ok &= run(s, 0);
